@@ -147,7 +147,7 @@ class BooleanOption(ConfigOption[bool]):
 class IntegerOption(ConfigOption[int]):
     @classmethod
     def parse(cls: "type[IntegerOption]", data: object, source_path: Path) -> int:
-        if isinstance(data, int):
+        if isinstance(data, int) and not isinstance(data, bool):
             return data
         raise InvalidConfigOption.from_parser(cls, "int", data)
 
@@ -391,6 +391,8 @@ def _parse_config_section(
                     "Top-level configuration should not set module option"
                 )
         elif key == "extend_config":
+            if module_path:
+                raise InvalidConfigOption("Nested section cannot set extend_config")
             if not isinstance(value, str):
                 raise InvalidConfigOption("extend_config must be a string")
             extended_path = path.parent / value
@@ -418,6 +420,10 @@ def _parse_config_section(
                     seen_paths=seen_paths,
                 )
         elif key == "disable_all":
+            if not isinstance(value, bool):
+                raise InvalidConfigOption(
+                    f"Invalid value for option disable_all: expected bool but got {value!r}"
+                )
             disable_all_default_error_codes = value
         else:
             try:
